@@ -34,4 +34,47 @@ def applyRoundingRule (o : Ops) (sub : String → Nat) (rr cur : String) (a : Am
 /-- `Amount.MatchPrecision`: `a.RescaleUp(b.exp)` -/
 def matchPrecision (a b : Amount) : Amount := up a b.exp
 
+/-! ## errors of the error-returning functions (go2lean_errfn.go) -/
+
+/-- a Go error value as the translation keeps it: the constant format of
+    `fmt.Errorf` / `errors.New` (arguments dropped), nested under the keys of
+    the `validation.Errors{key: err}` literals it was wrapped in -/
+inductive GoErr
+  | msg (format : String)
+  | at (key : String) (e : GoErr)
+deriving Repr, DecidableEq, Inhabited
+
+/-- the innermost message -/
+def GoErr.leaf : GoErr → String
+  | .msg f => f
+  | .at _ e => e.leaf
+
+/-- the keys it is nested under, outermost first -/
+def GoErr.path : GoErr → List String
+  | .msg _ => []
+  | .at k e => k :: e.path
+
+/-- the format of the only error `calculateLineItemPrice` can return inside the model's domain -/
+def noRateFormat : String := "no exchange rate found from '%v' to '%v'"
+
+/-- the model's error for a Go error, read off the innermost message.  (The
+    other message of bill/line_calculate.go, "invalid currency '%v'", cannot
+    occur here: `currency.Code.Def` is total in the translation — a code
+    without definition is outside the model.) -/
+def errOf (e : GoErr) : CalcErr :=
+  if e.leaf = noRateFormat then .noExchangeRate else .retainedIncluded
+
+/-- the result of an error function as the model's result -/
+def toModel {α β : Type} (f : α → β) : Except GoErr α → Except CalcErr β
+  | .ok a => .ok (f a)
+  | .error e => .error (errOf e)
+
+/-- `currency.Convert(rates, from, to, amount)`: the amount itself for equal
+    codes, else the first rate `from → to` (`MatchExchangeRate`) applied by
+    `ExchangeRate.Convert` at the subunits of ITS destination currency
+    (`er.To.Def().Zero().Exp()`), nil when there is none -/
+def convertRates (o : Ops) (sub : String → Nat) (rates : List XRate) (f t : String) (a : Amount) : Option Amount :=
+  if f = t then some a
+  else (findRate rates f t).map (fun r => convert o { r with toSub := sub r.to } a)
+
 end GoblVerif.CalcSrc
